@@ -36,6 +36,11 @@ class ModuleSrc:
             for t in node.targets:
                 if isinstance(t, ast.Name):
                     self.assigns[t.id] = node.value
+                elif isinstance(t, (ast.Tuple, ast.List)) and all(isinstance(el, ast.Name) for el in t.elts):
+                    # a, b, c = <expression>: name k is element k of the expression (no starred targets)
+                    for k, el in enumerate(t.elts):
+                        sub = ast.parse(f"list({ast.unparse(node.value)})[{k}]", mode="eval").body
+                        self.assigns[el.id] = ast.fix_missing_locations(ast.copy_location(sub, node.value))
         elif isinstance(node, ast.AnnAssign) and node.value is not None and isinstance(node.target, ast.Name):
             self.assigns[node.target.id] = node.value
         elif isinstance(node, ast.Import):
